@@ -157,3 +157,34 @@ def tuple_shapes(alphabet, maxw):
     for w in range(0, maxw + 1):
         for ts in itertools.product(alphabet, repeat=w):
             yield ("tuple",) + ts
+
+
+def annotatable(t):
+    try:
+        AB.to_pyteal(t).annotation_type()
+        return True
+    except Exception:  # noqa
+        return False
+
+
+def realise(t):
+    """Replace every named-tuple term by one whose Python class is declared the normal way (field annotations =
+    the member types), so that new_instance() of the spec has the spec's own member types; where the members cannot
+    be annotated (e.g. a plain tuple of more than 5 members inside) fall back to a plain tuple.  Class numbers are
+    per process: call this again after loading a job from JSON."""
+    if isinstance(t, str):
+        return t
+    h = t[0]
+    if h == "sarr":
+        return ("sarr", realise(t[1]), t[2])
+    if h == "darr":
+        return ("darr", realise(t[1]))
+    if h == "tuple":
+        return ("tuple",) + tuple(realise(x) for x in t[1:])
+    if h == "named":
+        ts = tuple(realise(x) for x in t[3:])
+        names = tuple("f%d" % k for k in range(len(ts)))
+        if ts and all(annotatable(x) for x in ts):
+            return AB.realistic_named(names, ts)
+        return ("tuple",) + ts
+    return t
